@@ -204,3 +204,38 @@ package filters
 //@ at call Sprint #1 before assert unwrapped: len(arg0) == 1 && arg0[0] == cur && cur != nil
 //@ loop 1 invariant count: n == _i && fresh(ss) && sameold("S$Val")
 //@ ensures all: n == len(a)
+
+// ---- uniq, split and helpers: panic-freedom (C01) and input unchanged (C03) -------------
+//@ func filters.eqItems
+//@ props C01 C15
+//@ panics nothing
+//@ assigns nothing
+
+//@ func filters.uniqFilter
+//@ props C01 C15 C03
+//@ panics nothing
+//@ assigns alloc S$Val, alloc M$has$Val$Bool, alloc M$val$Val$Bool
+//@ loop 1 invariant fresh: freshOrNil(result) && sameold("S$Val")
+
+//@ func filters.splitFilter
+//@ props C01 C16
+//@ panics nothing
+
+//@ func filters.firstWords
+//@ props C01 C16
+//@ panics nothing
+//@ assigns nothing
+//@ loop 1 invariant pos: 0 <= pos && pos <= len(s)
+//@ loop 2 invariant idx: 0 <= i && i <= len(s) && 0 <= pos && pos <= len(s)
+//@ loop 3 invariant idx: 0 <= i && i <= len(s) && 0 <= pos && pos <= len(s)
+//@ ensures prefix: len(result) <= len(s)
+
+//@ func values.IsEmpty
+//@ props C01
+//@ panics nothing
+//@ assigns nothing
+
+//@ func values.Length
+//@ props C01 C15
+//@ panics nothing
+//@ assigns nothing
